@@ -72,7 +72,7 @@ def analyse(spec):
                                'at that day' + (' in the new unit' if 'rescale' in kw else '') if 'time' in kw else 'in the new unit'))
         break
   if spec['n_cool'] > 0:
-    per = tbrfam.NAMING['period_test'] if spec.get('custom_names') else 1
+    per = tbrfam.naming(spec)['period_test'] if spec.get('custom_names') else 1
     d3 = m.causal_cumulative_distribution(periods=(per,))
     l3, s3 = [float(v) for v in d3.kwds['loc']], [float(v) for v in d3.kwds['scale']]
     nt = spec['n_test']
